@@ -4,6 +4,7 @@ import HpackVerif.Props.C07
 import HpackVerif.Props.C02
 import HpackVerif.Props.C08
 import HpackVerif.Props.C05
+import HpackVerif.Props.C15
 /-! # Property theorems restated on the translated source
 
 Each statement here composes a *tie* theorem (translated source = model, `Props.Src*`) with a *property* theorem (the model
@@ -140,5 +141,25 @@ theorem defect_decides (st : DecState) (h : Props.DecReach st) (hlim : st.listLi
   refine ⟨st', ?_, h2⟩
   rw [ha]
   cases e <;> rfl
+
+/-- **C15 on the source, decoder side**: for every reachable decoder and every well-formed literal representation
+(`ix` = incremental / without indexing / never indexed; literal or indexed name; any string coding), the translated
+`Decoder._decode_literal` returns the field with the never-indexed class exactly for the never-indexed pattern, consumes
+exactly the representation's octets, and inserts into the table only for the incremental pattern -/
+theorem decoder_literal (st : DecState) (h : Props.DecReach st) (ix : RFC.Indexing) (nm : RFC.NameRef) (v : Bytes) (ch : RFC.Choice)
+    (hok : RFC.RepOK Gen.intCap (.literal ix nm v) ch) (rest : Bytes) (name : Bytes)
+    (hname : RFC.resolveName (RFC.abs st) nm = some name) :
+    ∃ f0, ∀ fuel, fuel ≥ f0 → ∃ t',
+      Src.Decoder.decode_literal fuel (absD st) (RFC.reprOctets (.literal ix nm v) ch ++ rest) (decide (ix = .incremental))
+        = .ok (absD { st with table := t' }, ((name, v, (ix == .never)), ((RFC.reprOctets (.literal ix nm v) ch).length : Int))) ∧
+      RFC.absT t' = (if ix = .incremental then RFC.fitE st.table.maxsize ((name, v) :: RFC.absT st.table) else RFC.absT st.table) := by
+  obtain ⟨hd, t', h1, hn, hv, hnv, ht⟩ := Props.C15.decoder_literal st h ix nm v ch hok rest name hname
+  obtain ⟨f0, hf⟩ := Props.SrcDec.decode_literal_is_model st (RFC.reprOctets (.literal ix nm v) ch ++ rest) (decide (ix = .incremental))
+  refine ⟨f0, fun fuel hfu => ⟨t', ?_, ht⟩⟩
+  have ha := hf fuel hfu
+  rw [h1] at ha
+  simp only [Agree] at ha
+  rw [ha]
+  simp only [litOk, hproj, hn, hv, hnv]
 
 end Props.OnSourceDec
